@@ -27,7 +27,23 @@ def _add_operands(e: ast.AST) -> List[ast.AST]:
     return [e]
 
 
+def _deferral_once(model: Model, rep: Report) -> None:
+    """group_textboxes puts a pair back on the heap when something lies between the two boxes - once: the entry that goes back
+    carries the flag that switches the test off.  That is what makes the loop terminate."""
+    from ..util import guard_conjuncts
+
+    r = rep.rule("C08-R16", "GUARD", "group_textboxes: a pair is deferred (pushed back with skip_isany = True) only while its own skip flag is off - `not skip_isany` is a conjunct of its own in the deferral test, so no pair is deferred twice", 1)
+    gt = model.func(L + "LTLayoutContainer.group_textboxes")
+    pushes = [c for c in walk_no_nested(gt.node) if isinstance(c, ast.Call) and (dotted(c.func) or "") == "heapq.heappush" and len(c.args) == 2 and isinstance(c.args[1], ast.Tuple) and c.args[1].elts and isinstance(c.args[1].elts[0], ast.Constant) and c.args[1].elts[0].value is True]
+    if not pushes:
+        raise AnchorMissing("group_textboxes: the push of a deferred pair (True, ...) not found")
+    for c in pushes:
+        g = guard_conjuncts(gt, c, innermost=True)
+        r.check("notskip_isany" in g, site(gt, c), gt.qualname, "the deferred pair is pushed under `not skip_isany and ...`", why=f"guards {sorted(g)}: a pair can be pushed back although it was deferred before; when the condition that allows it persists (two boxes at distance 0 with a third across them) the loop never ends")
+
+
 def run(model: Model, rep: Report) -> None:
+    _deferral_once(model, rep)
     rep.explanation = (
         "C08: decides the structural part of content conservation: each partition produced in LTLayoutContainer.analyze reaches the final child "
         "list by def-use; a typestate analysis of group_objects over all paths of its loop body shows that every glyph is added to exactly one "
@@ -172,6 +188,15 @@ def run(model: Model, rep: Report) -> None:
     flat_e = "".join(unparse(ast.Module(body=e, type_ignores=[])).split())
     r6.check("assigner=IndexAssigner()" in flat_e and "assigner.run(group)" in flat_e and "textboxes.sort(key=lambdabox:box.index)" in flat_e, site(an, e[0]) if e else site(an), an.qualname, "grouped path: IndexAssigner numbers the boxes in group order, then the boxes are sorted by that number", why="numbering on the grouped path changed")
     ia = model.func(L + "IndexAssigner.run")
+    # the assigner goes into every kind of group: the test names the common base class
+    r17 = rep.rule("C08-R17", "DISPATCH", "IndexAssigner descends into every text group (horizontal and vertical alike): the recursion is tested with the base class LTTextGroup", 1)
+    rec_ifs = [n for n in walk_no_nested(ia.node) if isinstance(n, ast.If) and any(isinstance(c, ast.Call) and (dotted(c.func) or "") == "self.run" for st in n.body for c in ast.walk(st))]
+    if not rec_ifs:
+        raise AnchorMissing("IndexAssigner.run: recursive branch not found")
+    for n in rec_ifs:
+        names = {unparse(a) for c in ast.walk(n.test) if isinstance(c, ast.Call) and (dotted(c.func) or "") == "isinstance" and len(c.args) == 2 for a in (c.args[1].elts if isinstance(c.args[1], ast.Tuple) else [c.args[1]])}
+        subs = {q.split(".")[-1] for q in model.classes if q.startswith(L + "LTTextGroup") and q != L + "LTTextGroup"}
+        r17.check("LTTextGroup" in names or (subs and subs <= names), site(ia, n), ia.qualname, f"{unparse(n.test)} covers every group class ({sorted(subs)})", why=f"tests {sorted(names)}: boxes under a group of another class (vertical text: LTTextGroupTBRL) are never numbered and keep index -1")
     fi = "".join(unparse(ia.node).split())
     r6.check("obj.index=self.indexself.index+=1" in fi and "forxinobj:self.run(x)" in fi and unparse(model.func(L + "IndexAssigner.__init__").node).count("index: int=0") + unparse(model.func(L + "IndexAssigner.__init__").node).count("index: int = 0") >= 1, site(ia), ia.qualname, "IndexAssigner hands out consecutive numbers from 0 in traversal order", why="changed")
 
